@@ -49,6 +49,13 @@ CHECKS['C01'] = dict(
          'GroupMissingDataError. Exploration.',
     note='Trusted: the per-group correlations as the reference (their own correctness is C05). Tolerance 1e-10*sum|term|+1e-12.',
     ref='DESIGN.md C01')
+CHECKS['C20'] = dict(
+    technique='exhaustive basis unit vectors + Hypothesis mappings against a reference quadratic form read from the YAML; scaling and permutation metamorphic relations',
+    text='For the three shipped uncertainty-carrying libraries (every basis unit vector, random integer/fractional mappings, scaled by k in {-3,-1,0.5,2,10}, re-ordered, with an out-of-basis descriptor) '
+         'and synthetic libraries with a generated PSD matrix and a basis order different from the library order, each standard error is compared with |RMSE_X(T)|*sqrt(x\'Mx) computed by the harness from '
+         'uq.yaml, must be a non-negative plain float, scale with |k|, not depend on mapping order; out-of-basis descriptors must raise. Exploration.',
+    note='Trusted: yaml.safe_load of uq.yaml; the loaded RMSE correlation as the value of RMSE_X(T).',
+    ref='DESIGN.md C20')
 NOT_YET = {}
 
 def main():
